@@ -423,3 +423,29 @@ def case_ovr_bias():
 
 
 CASES["ovr_bias"] = case_ovr_bias
+
+
+def case_ovr_unsqueeze():
+    return _override_case([helper.make_node("Unsqueeze", ["x", "a1"], ["t"]), helper.make_node("Unsqueeze", ["t", "a2"], ["y"])], [2, 3],
+                          {"a1": np.array([0], dtype=np.int64), "a2": np.array([0], dtype=np.int64)},
+                          {"a1": np.array([0], dtype=np.int64), "a2": np.array([3], dtype=np.int64)}, ["a", "b", "c", "d"],
+                          "Unsqueeze(Unsqueeze(x, a1), a2), defaults a1 = a2 = [0]")
+
+
+def case_ovr_slice():
+    return _override_case([helper.make_node("Slice", ["x", "st", "en", "ax", "sp"], ["y"])], [2, 3],
+                          {"st": np.array([0], dtype=np.int64), "en": np.array([2], dtype=np.int64), "ax": np.array([0], dtype=np.int64), "sp": np.array([1], dtype=np.int64)},
+                          {"st": np.array([0], dtype=np.int64), "en": np.array([1], dtype=np.int64), "ax": np.array([0], dtype=np.int64), "sp": np.array([1], dtype=np.int64)},
+                          ["a", 3], "Slice(x[2,3], 0, en, 0, 1), default en = 2")
+
+
+def case_ovr_scatter():
+    g = helper.make_graph([helper.make_node("ScatterND", ["x", "idx", "u"], ["y"])], "g",
+                          [vi("x", TensorProto.FLOAT, [2, 3]), vi("u", TensorProto.FLOAT, [2, 3]), vi("idx", TensorProto.INT64, [2, 1])], [vi("y", TensorProto.FLOAT, [2, 3])],
+                          [numpy_helper.from_array(np.array([[0], [1]], dtype=np.int64), "idx")])
+    m = helper.make_model(g, opset_imports=[helper.make_opsetid("", 18)], ir_version=9)
+    return check(m, [{"x": np.zeros((2, 3), np.float32), "u": np.arange(6, dtype=np.float32).reshape(2, 3), "idx": np.array([[1], [0]], dtype=np.int64)}],
+                 "ScatterND(x, idx, u) with idx an overridable initializer (default [[0],[1]]) fed [[1],[0]]")
+
+
+CASES.update({"ovr_unsqueeze": case_ovr_unsqueeze, "ovr_slice": case_ovr_slice, "ovr_scatter": case_ovr_scatter})
